@@ -1,8 +1,8 @@
 package scen
 
 import (
-	"hash/crc32"
 	"fmt"
+	"hash/crc32"
 
 	"verifh/envfs"
 )
